@@ -110,7 +110,7 @@ func (s *streamHTTP) SendMsg(m interface{}) error {
 
 	cur := reply.ProtoReflect()
 	for _, fd := range s.method.resp {
-		cur = cur.Mutable(fd).Message()
+		cur = cur.Mutable(fieldOf(cur, fd)).Message()
 	}
 	msg := cur.Interface()
 
@@ -208,7 +208,7 @@ func (s *streamHTTP) decodeRequestArgs(args proto.Message) (int, error) {
 
 	cur := args.ProtoReflect()
 	for _, fd := range s.method.body {
-		cur = cur.Mutable(fd).Message()
+		cur = cur.Mutable(fieldOf(cur, fd)).Message()
 	}
 	msg := cur.Interface()
 
@@ -534,7 +534,7 @@ func AsHTTPBodyReader(stream grpc.ServerStream, msg proto.Message) (body io.Read
 		return nil, fmt.Errorf("expected %s got %s", want, name)
 	}
 	for _, fd := range s.method.body {
-		cur = cur.Mutable(fd).Message()
+		cur = cur.Mutable(fieldOf(cur, fd)).Message()
 	}
 
 	if typ := cur.Descriptor().FullName(); typ != "google.api.HttpBody" {
@@ -574,7 +574,7 @@ func AsHTTPBodyWriter(stream grpc.ServerStream, msg proto.Message) (body io.Writ
 		return nil, fmt.Errorf("expected %s got %s", want, name)
 	}
 	for _, fd := range s.method.resp {
-		cur = cur.Mutable(fd).Message()
+		cur = cur.Mutable(fieldOf(cur, fd)).Message()
 	}
 
 	if typ := cur.Descriptor().FullName(); typ != "google.api.HttpBody" {
